@@ -5,6 +5,7 @@ import (
 	"encoding/json"
 	"errors"
 	"fmt"
+	"github.com/nspcc-dev/neo-go/pkg/crypto/hash"
 	"reflect"
 
 	"github.com/nspcc-dev/neo-go/pkg/config/netmode"
@@ -56,6 +57,10 @@ type codec struct {
 	norm func([]byte) []byte
 	// weight in the fuzz schedule
 	weight int
+	// fix, if set, repairs the integrity fields of a mutated encoding (a trailing
+	// checksum): every mutant is also offered in its repaired form, the way a
+	// crafted input would come
+	fix func([]byte) []byte
 }
 
 func encode(s io.Serializable) []byte {
@@ -201,7 +206,7 @@ func allCodecs() []*codec {
 	})
 	add(&codec{
 		name: "tx.hashable", typ: "tx", entry: "Transaction.DecodeHashableFields", gen: genTxAny(txOpts{reserved: true, small: true}), weight: 3,
-		enc:  func(v any) ([]byte, error) { return v.(*transaction.Transaction).EncodeHashableFields() },
+		enc: func(v any) ([]byte, error) { return v.(*transaction.Transaction).EncodeHashableFields() },
 		dec: func(b []byte) (any, error) {
 			tx := new(transaction.Transaction)
 			if err := tx.DecodeHashableFields(b); err != nil {
@@ -485,6 +490,14 @@ func allCodecs() []*codec {
 			return &f, nil
 		},
 		diff: ptrDiff, ident: nefIdent,
+		fix: func(b []byte) []byte {
+			if len(b) < 8 {
+				return nil
+			}
+			f := bytes.Clone(b)
+			copy(f[len(f)-4:], hash.Checksum(f[:len(f)-4]))
+			return f
+		},
 	})
 	add(jsonCodec[nef.File]("nef.json", "nef", genNEFAny, nil, nefIdent))
 	genMfAny := func(r *rng.R) (any, string) {
